@@ -71,6 +71,22 @@ Example C09d_nonvacuous :
   d_levels (ds_roundtrip w1) = [[[dbits 5]]].
 Proof. vm_compute. repeat split. Qed.
 
+(* non-vacuity of the reachable-state theorem: a history with a compaction satisfies [valid] and [fits]; its image is 60 bytes *)
+Definition h1 : hist :=
+  fold_left (fun h x => HUpd h [x; -x] (mk_env [1; 0; 1; 0; 1; 0; 1])) [0; 3; 1000; 2; 7] (HNew 2 2).
+Example C09d_reachable_nonvacuous :
+  valid h1 /\ fits kern0 h1 /\ (1 <? Z.of_nat (length (d_levels (eval kern0 h1)))) = true /\
+  (match dec true (enc (to_wire (eval kern0 h1))) with
+   | Some (w, r) => of_wire w = Some (ds_roundtrip (eval kern0 h1)) /\ r = padding (to_wire (eval kern0 h1))
+   | None => False end).
+Proof.
+  assert (Ei : inputs kern0 h1 = [[0; 0]; [3; -3]; [1000; -1000]; [2; -2]; [7; -7]]) by (vm_compute; reflexivity).
+  split; [vm_compute; discriminate|]. split.
+  - unfold fits. rewrite Ei. split; [vm_compute; reflexivity|]. split; [vm_compute; split; [discriminate|reflexivity]|].
+    split; [vm_compute; reflexivity|]. repeat constructor; vm_compute; reflexivity.
+  - split; [vm_compute; reflexivity|]. vm_compute. split; reflexivity.
+Qed.
+
 Print Assumptions C09d_roundtrip.
 Print Assumptions C09d_roundtrip_exact.
 Print Assumptions C09d_roundtrip_empty.
